@@ -594,32 +594,32 @@ class SensorModelModel(Contract):
 from contracts import gate  # noqa: E402
 from pvc.models import sqrt_f  # noqa: E402
 from pvc.np_model import SBoolArr  # noqa: E402
-from pvc.sym import mat_add, mat_inv, mat_mm, mat_sub, mat_T  # noqa: E402
+from pvc.sym import mat_add, mat_inv, mat_mm, mat_sub, mat_T, mm  # noqa: E402
 
-nis_f = lambda nu, sinv: mat_el(mat_mm(mat_mm(mat_T(nu), sinv), nu), 0, 0)
+nis_f = lambda nu, sinv: mat_el(mm(mm(mat_T(nu), sinv), nu), 0, 0)
 
 
 def spec_predict_cov(G, P, V, M):
     """G P G^T + V M V^T"""
-    return mat_add(mat_mm(G, mat_mm(P, mat_T(G))), mat_mm(V, mat_mm(M, mat_T(V))))
+    return mat_add(mm(G, mm(P, mat_T(G))), mm(V, mm(M, mat_T(V))))
 
 
 def spec_S(H, P, Q):
     """innovation covariance H P H^T + Q"""
-    return mat_add(mat_mm(H, mat_mm(P, mat_T(H))), Q)
+    return mat_add(mm(H, mm(P, mat_T(H))), Q)
 
 
 def spec_K(P, H, Sinv):
     """Kalman gain P H^T S^-1"""
-    return mat_mm(P, mat_mm(mat_T(H), Sinv))
+    return mm(P, mm(mat_T(H), Sinv))
 
 
 def spec_state(x, K, nu):
-    return mat_add(x, mat_mm(K, nu))
+    return mat_add(x, mm(K, nu))
 
 
 def spec_cov(P, K, H):
-    return mat_sub(P, mat_mm(K, mat_mm(H, P)))
+    return mat_sub(P, mm(K, mm(H, P)))
 
 
 def threshold(k, m):
@@ -825,7 +825,7 @@ class SensorUpdate(Contract):
         if spu and isinstance(spu[0], SMat):
             # element-wise law (numpy broadcasting is visible here): S[i,j] = (H P H^T)[i,j] + Q[i,j]
             i, j = z3.Int("i_any"), z3.Int("j_any")
-            hph = mat_mm(H, mat_mm(Pt, mat_T(H)))
+            hph = mm(H, mm(Pt, mat_T(H)))
             P.oblige(f"{pre}.innovation_covariance_elementwise", z3.Implies(z3.And(i >= 0, i < ms.m, j >= 0, j < ms.m), z3.And(to_int(spu[0].rows()) == ms.m, to_int(spu[0].cols()) == ms.m, spu[0].el(i, j) == mat_el(hph, i, j) + W.Q.el(i, j))))
         for k, v in W.innovations.writes + W.spu.writes:
             P.oblige(f"{pre}.records_under_sensor_key", z3.BoolVal(k is W.sensor_key))
